@@ -7,11 +7,12 @@ Property theorems only (helpers: `Proofs/UrlTree.lean`, `Proofs/C13.lean`).  Mod
 with explicit map identity; selection of `getRemedies`/`getDiagnoses`).  Spec: `Spec/UrlMatch.lean`,
 `Spec/C13.lean` (observable terms only).
 
-F13a (policy map of another matching pattern mutated and shared) and F13e (a repeated method+URL silently
-replaced the earlier declaration) are REPAIRED: no theorem below carries a hypothesis about cross-matching or
-duplicated declarations any more, and the former violation witnesses are now regression theorems
-(`regress_F13a`, `regress_F13e`).  The remaining `_partial` hypotheses are exactly the decidable classifiers
-of the findings still open in the trie (F13b, F13c, F13d, F13f), each with a `_violation_witness`.
+REPAIRED and no longer excluded anywhere: F13a, F13e (builder), F13b, F13d, F13f and the wildcard half of F13c
+(trie lookup / validation).  Their former violation witnesses are now regression theorems (`regress_F13a`,
+`regress_F13b`, `regress_F13c_wildcard`, `regress_F13d`, `regress_F13e`, `regress_F13f`).  The one hypothesis
+left in the `_partial` theorems is the classifier of the finding still open: F13c, literal/parameter half
+(`boundaryMix` / `cfgBoundaryMix`: trie children are keyed by value, not by value and side of the host/path
+boundary), with its `boundary_violation_witness`.
 All theorems quantify over every endpoint list, every request and every global configuration.
 -/
 namespace LunarVerif.C13
@@ -39,15 +40,14 @@ def appliedRemedies (es : List Endpoint) (m : String) (u : List Part) : Option (
 /-! ### (S) soundness -/
 
 /-- (S) For EVERY endpoint list that builds, in every declaration order, with overlapping and duplicated
-    declarations: if no declared pattern follows the request URL across the host/path boundary (¬F13c) and
-    the URL has no empty segment (¬F13d), a policy is applied to `(m, u)` only if it was declared for method
+    declarations, and EVERY request URL (empty segments included): if no declared pattern follows the request
+    URL across the host/path boundary (¬F13c), a policy is applied to `(m, u)` only if it was declared for method
     `m` with a pattern that `matches` `u`, and what is applied is exactly the enabled remedies and diagnoses
     of the declarations for that method and pattern. -/
 theorem sound_partial (es : List Endpoint) (g : Globals) (pt : PTree) (m : String) (u : List Part)
-    (hbuild : build es = .ok pt) (hF13c : boundaryMix es u = false) (hF13d : emptySegment u = false) :
-    soundOk es m u (observe pt g m u) = true := by
-  have hne : urlNonEmpty u = true := by simpa [emptySegment] using hF13d
-  exact soundOk_of_inv (build_inv hbuild) g m u hne hF13c
+    (hbuild : build es = .ok pt) (hF13c : boundaryMix es u = false) :
+    soundOk es m u (observe pt g m u) = true :=
+  soundOk_of_inv (build_inv hbuild) g m u hF13c
 
 /-- Former F13a witness, now a regression: `[GET api.com/users/{id} → A, GET api.com/users/me → B]` in BOTH
     declaration orders gives A to `api.com/users/123` and B to `api.com/users/me`. -/
@@ -60,21 +60,20 @@ theorem regress_F13a :
 
 /-! ### (M) most specific, as far as the non-backtracking lookup guarantees it -/
 
-/-- (M) Outside F13c, F13d: the applied policy's pattern `p` is at least as specific (`specLE`:
+/-- (M) Outside F13c: the applied policy's pattern `p` is at least as specific (`specLE`:
     literal > parameter > wildcard, position-wise, lexicographic) as EVERY declared pattern `q` that matches
     the request — except when `passedOver p q`: `p` ends in `*` and `q` follows the same trie path up to that
     `*` and continues with a literal/parameter there.  That exception is precisely the lookup's lack of
     backtracking (after entering a literal/parameter child it can only fall back to the deepest `*` seen);
     it never arises when the applied pattern does not end in `*`. -/
 theorem most_specific_partial (es : List Endpoint) (g : Globals) (pt : PTree) (m : String) (u : List Part)
-    (hbuild : build es = .ok pt) (hF13c : boundaryMix es u = false) (hF13d : emptySegment u = false) :
+    (hbuild : build es = .ok pt) (hF13c : boundaryMix es u = false) :
     mostSpecificOk es m u (observe pt g m u) = true := by
-  have hne : urlNonEmpty u = true := by simpa [emptySegment] using hF13d
   have hinv := build_inv hbuild
   unfold mostSpecificOk
-  apply any_soundFor hinv g m u hne hF13c (fun e => mostSpecificFor es u e)
+  apply any_soundFor hinv g m u hF13c (fun e => mostSpecificFor es u e)
   intro q i e hl hq _ _ hep
-  exact most_specific_of_inv hinv u hne hF13c hl hq hep
+  exact most_specific_of_inv hinv u hF13c hl hq hep
 
 /-- The `passedOver` exception is empty for patterns that do not end in `*`. -/
 theorem passedOver_only_wildcard (p q : Pattern) (h : passedOver p q = true) :
@@ -119,7 +118,7 @@ theorem passed_over_witness :
 
 /-- non-vacuity of (S)/(M): two declared patterns match `api.com/users/me`, the literal one is applied. -/
 example :
-    boundaryMix [epUsersId, epUsersMe] epUsersMe.parts = false ∧ emptySegment epUsersMe.parts = false ∧
+    boundaryMix [epUsersId, epUsersMe] epUsersMe.parts = false ∧
     «matches» epUsersId.parts epUsersMe.parts = true ∧ «matches» epUsersMe.parts epUsersMe.parts = true ∧
     appliedRemedies [epUsersId, epUsersMe] "GET" epUsersMe.parts = some ["B"] ∧
     specLE epUsersId.parts epUsersMe.parts = true ∧ specLE epUsersMe.parts epUsersId.parts = false := by
@@ -127,18 +126,16 @@ example :
 
 /-! ### (P) and (N): parameters and normalised URL -/
 
-/-- (P) Outside F13b–d: every extracted `(name, value)` is `{name}` in the applied policy's pattern at a
+/-- (P) Outside F13c: every extracted `(name, value)` is `{name}` in the applied policy's pattern at a
     position where the request URL has the segment `value`. -/
 theorem params_are_segments_partial (es : List Endpoint) (g : Globals) (pt : PTree) (m : String) (u : List Part)
-    (hbuild : build es = .ok pt) (hF13c : boundaryMix es u = false)
-    (hF13d : emptySegment u = false) (hF13b : wildDisplaced es u = false) :
+    (hbuild : build es = .ok pt) (hF13c : boundaryMix es u = false) :
     paramsOkA es m u (observe pt g m u) = true := by
-  have hne : urlNonEmpty u = true := by simpa [emptySegment] using hF13d
   have hinv := build_inv hbuild
   unfold paramsOkA
-  apply any_soundFor hinv g m u hne hF13c (fun e => paramsOk e.parts u (observe pt g m u).params)
+  apply any_soundFor hinv g m u hF13c (fun e => paramsOk e.parts u (observe pt g m u).params)
   intro q i e hl hq _ _ hep
-  obtain ⟨_, hpar⟩ := exact_of_inv hinv u hne hF13c hF13b hl hq
+  obtain ⟨_, hpar⟩ := exact_of_inv hinv u hF13c hl hq
   have hsp : (observe pt g m u).params = bindParams [] q u := by
     simp only [observe, select_some hl]; exact hpar
   simp only [paramsOk, hsp, hep]
@@ -149,18 +146,16 @@ theorem params_are_segments_partial (es : List Endpoint) (g : Globals) (pt : PTr
   · rw [List.any_eq_true]
     exact ⟨pu, hpu, by simp [h1, h2]⟩
 
-/-- (N) Outside F13b–d: the reported normalised URL is the applied policy's declared pattern (which matches
+/-- (N) Outside F13c: the reported normalised URL is the applied policy's declared pattern (which matches
     the request, by `sound_partial`). -/
 theorem normalized_is_declared_and_matches_partial (es : List Endpoint) (g : Globals) (pt : PTree)
-    (m : String) (u : List Part) (hbuild : build es = .ok pt) (hF13c : boundaryMix es u = false)
-    (hF13d : emptySegment u = false) (hF13b : wildDisplaced es u = false) :
+    (m : String) (u : List Part) (hbuild : build es = .ok pt) (hF13c : boundaryMix es u = false) :
     normOk es m u (observe pt g m u) = true := by
-  have hne : urlNonEmpty u = true := by simpa [emptySegment] using hF13d
   have hinv := build_inv hbuild
   unfold normOk
-  apply any_soundFor hinv g m u hne hF13c (fun e => (observe pt g m u).normParts == e.parts)
+  apply any_soundFor hinv g m u hF13c (fun e => (observe pt g m u).normParts == e.parts)
   intro q i e hl hq _ _ hep
-  obtain ⟨hnorm, _⟩ := exact_of_inv hinv u hne hF13c hF13b hl hq
+  obtain ⟨hnorm, _⟩ := exact_of_inv hinv u hF13c hl hq
   simp only [observe, select_some hl, hnorm, hep, beq_self_eq_true]
 
 def epXWild : Endpoint :=
@@ -174,34 +169,16 @@ def reportedNorm (es : List Endpoint) (m : String) (u : List Part) : Option (Lis
   | .ok pt => (select pt m u).policy.map (fun _ => (select pt m u).norm)
   | .error _ => none
 
-/-- F13b (open).  Only `a.com/x/*` declared, request `a.com/x`: the policy is applied (the `*` swallows
-    nothing) but the reported normalised URL is `a.com/x`, which is not a declared pattern. -/
-theorem zero_segment_wildcard_violation_witness :
-    reportedNorm [epXWild] "GET" urlX = some urlX ∧ urlX ≠ epXWild.parts ∧
-    wildDisplaced [epXWild] urlX = true ∧
-    (∃ pt, build [epXWild] = .ok pt ∧ normOk [epXWild] "GET" urlX (observe pt noGlobals "GET" urlX) = false) := by
-  refine ⟨by decide, by decide, by decide, ?_⟩
-  cases h : build [epXWild] with
-  | error e =>
-    have : (match build [epXWild] with | .ok _ => true | .error _ => false) = true := by decide
-    rw [h] at this
-    exact absurd this (by simp)
-  | ok pt =>
-    refine ⟨pt, rfl, ?_⟩
-    have : (match build [epXWild] with
-      | .ok pt => normOk [epXWild] "GET" urlX (observe pt noGlobals "GET" urlX)
-      | .error _ => true) = false := by decide
-    rw [h] at this
-    exact this
-
-/-- non-vacuity of (P)/(N). -/
-example :
-    boundaryMix [epXWild] urlXY = false ∧ emptySegment urlXY = false ∧
-    wildDisplaced [epXWild] urlXY = false ∧ reportedNorm [epXWild] "GET" urlXY = some epXWild.parts := by
+/-- Former F13b witness, now a regression: only `a.com/x/*` declared, request `a.com/x` (the `*` swallows
+    nothing): the reported normalised URL is the declared pattern `a.com/x/*`. -/
+theorem regress_F13b :
+    reportedNorm [epXWild] "GET" urlX = some epXWild.parts ∧
+    reportedNorm [epXWild] "GET" urlXY = some epXWild.parts := by
   decide
 
+/-- non-vacuity of (P): a parameter is extracted. -/
 example :
-    wildDisplaced [epUsersMe, epUsersId] urlUsers123 = false ∧
+    boundaryMix [epUsersMe, epUsersId] urlUsers123 = false ∧
     (match build [epUsersMe, epUsersId] with
      | .ok pt => (select pt "GET" urlUsers123).params == [("id", "123")]
      | .error _ => false) = true := by
@@ -215,27 +192,25 @@ theorem globals_ok (pt : PTree) (g : Globals) (m : String) (u : List Part) :
 
 /-- Connection theorem.  `reqOk` — the very predicate `lvdriver_c13 judge` evaluates on the
     implementation's answers — is true of the model's answer to EVERY request on EVERY successfully built
-    endpoint list, outside the three classes still open (whose members the judge labels F13b–d). -/
+    endpoint list, outside the one class still open (whose members the judge labels F13c). -/
 theorem c13_holds_partial (es : List Endpoint) (g : Globals) (pt : PTree) (m : String) (u : List Part)
-    (hbuild : build es = .ok pt) (hF13b : wildDisplaced es u = false)
-    (hF13c : boundaryMix es u = false) (hF13d : emptySegment u = false) :
+    (hbuild : build es = .ok pt) (hF13c : boundaryMix es u = false) :
     reqOk es g m u (observe pt g m u) = true := by
   unfold reqOk
-  rw [sound_partial es g pt m u hbuild hF13c hF13d,
-    most_specific_partial es g pt m u hbuild hF13c hF13d,
-    params_are_segments_partial es g pt m u hbuild hF13c hF13d hF13b,
-    normalized_is_declared_and_matches_partial es g pt m u hbuild hF13c hF13d hF13b,
+  rw [sound_partial es g pt m u hbuild hF13c,
+    most_specific_partial es g pt m u hbuild hF13c,
+    params_are_segments_partial es g pt m u hbuild hF13c,
+    normalized_is_declared_and_matches_partial es g pt m u hbuild hF13c,
     globals_ok]
   rfl
 
-/-- (D) Outside F13c, F13d: the remedy that answers through the dispatcher (first of the endpoint-scoped
+/-- (D) Outside F13c: the remedy that answers through the dispatcher (first of the endpoint-scoped
     then global enabled remedies) is an enabled global remedy or an enabled remedy of an endpoint declared for
     the request's method whose pattern matches the request URL. -/
 theorem dispatch_sound_partial (es : List Endpoint) (g : Globals) (pt : PTree) (m : String) (u : List Part)
     (first : String) (hbuild : build es = .ok pt) (hF13c : boundaryMix es u = false)
-    (hF13d : emptySegment u = false) (hd : dispatchFirst pt g m u = some first) :
+    (hd : dispatchFirst pt g m u = some first) :
     dispOk es g m u first = true := by
-  have hne : urlNonEmpty u = true := by simpa [emptySegment] using hF13d
   have hinv := build_inv hbuild
   have hmem : first ∈ (getRemedies pt g m u).1 ++ (getRemedies pt g m u).2 := by
     unfold dispatchFirst at hd
@@ -247,7 +222,7 @@ theorem dispatch_sound_partial (es : List Endpoint) (g : Globals) (pt : PTree) (
     cases hp : (select pt m u).policy with
     | none => simp [getRemedies, hp] at h
     | some pol =>
-      obtain ⟨q, i, e, _, hq, hm, hpol, _, _, _, _⟩ := select_char hinv hne hp
+      obtain ⟨q, i, e, _, hq, hm, hpol, _, _, _, _⟩ := select_char hinv hp
       simp only [getRemedies, hp, hpol, Policy.remedies, List.mem_map, List.mem_filter, List.mem_flatMap] at h
       obtain ⟨r, ⟨⟨x, hx, hr⟩, hen⟩, hname⟩ := h
       obtain ⟨hx1, hx2, hx3⟩ := mem_group.mp hx
@@ -278,15 +253,33 @@ example :
      | .error _ => false) = true := by
   decide
 
-/-! ### the classes still open are not empty -/
+/-! ### the class still open is not empty; the repaired ones are regressions -/
 
 def urlEvil : List Part :=
   [⟨true, .lit "a"⟩, ⟨true, .lit "com"⟩, ⟨true, .lit "evil"⟩, ⟨true, .lit "org"⟩, ⟨false, .lit "x"⟩]
 
-/-- F13c (open).  `a.com/*` is applied to the host `a.com.evil.org`. -/
+/-- Former F13c witness (wildcard half), now a regression: `a.com/*` is NOT applied to the host
+    `a.com.evil.org`, and still is to `a.com/x/y`. -/
+theorem regress_F13c_wildcard :
+    appliedRemedies [epWildAll] "GET" urlEvil = some [] ∧ appliedRemedies [epWildAll] "GET" urlXY = some ["C"] := by
+  decide
+
+/-- host `a.com.x` → A -/
+def epHostX : Endpoint :=
+  ⟨"GET", "a.com.x", [⟨true, .lit "a"⟩, ⟨true, .lit "com"⟩, ⟨true, .lit "x"⟩], [⟨"A", 1, true⟩], []⟩
+/-- `a.com/x/y` → B -/
+def epPathXY : Endpoint :=
+  ⟨"GET", "a.com/x/y", [⟨true, .lit "a"⟩, ⟨true, .lit "com"⟩, ⟨false, .lit "x"⟩, ⟨false, .lit "y"⟩], [⟨"B", 2, true⟩], []⟩
+/-- URL `a.com.x/y` -/
+def urlHostXY : List Part := [⟨true, .lit "a"⟩, ⟨true, .lit "com"⟩, ⟨true, .lit "x"⟩, ⟨false, .lit "y"⟩]
+
+/-- F13c (open, literal/parameter half).  Trie children are keyed by value only: `a.com/x/y` declared after
+    the host `a.com.x` is filed under the host's node and is applied to `a.com.x/y`, which it does not match
+    (and not to `a.com/x/y`, which it does). -/
 theorem boundary_violation_witness :
-    appliedRemedies [epWildAll] "GET" urlEvil = some ["C"] ∧ «matches» epWildAll.parts urlEvil = false ∧
-    boundaryMix [epWildAll] urlEvil = true ∧ emptySegment urlEvil = false := by
+    appliedRemedies [epHostX, epPathXY] "GET" urlHostXY = some ["B"] ∧
+    «matches» epPathXY.parts urlHostXY = false ∧ boundaryMix [epHostX, epPathXY] urlHostXY = true ∧
+    appliedRemedies [epHostX, epPathXY] "GET" epPathXY.parts = some [] := by
   decide
 
 def epUserPosts : Endpoint :=
@@ -295,28 +288,29 @@ def epUserPosts : Endpoint :=
     [⟨"A", 1, true⟩], []⟩
 def urlEmptyId : List Part :=
   [⟨true, .lit "a"⟩, ⟨true, .lit "com"⟩, ⟨false, .lit "users"⟩, ⟨false, .lit ""⟩, ⟨false, .lit "posts"⟩]
+def urlId7 : List Part :=
+  [⟨true, .lit "a"⟩, ⟨true, .lit "com"⟩, ⟨false, .lit "users"⟩, ⟨false, .lit "7"⟩, ⟨false, .lit "posts"⟩]
 
-/-- F13d (open).  `{id}` accepts the empty segment of `a.com/users//posts`. -/
-theorem empty_segment_violation_witness :
-    appliedRemedies [epUserPosts] "GET" urlEmptyId = some ["A"] ∧ «matches» epUserPosts.parts urlEmptyId = false ∧
-    emptySegment urlEmptyId = true ∧ boundaryMix [epUserPosts] urlEmptyId = false := by
+/-- Former F13d witness, now a regression: `{id}` does not accept the empty segment of `a.com/users//posts`. -/
+theorem regress_F13d :
+    appliedRemedies [epUserPosts] "GET" urlEmptyId = some [] ∧
+    appliedRemedies [epUserPosts] "GET" urlId7 = some ["A"] := by
   decide
 
 /-! ### (O): order independence -/
 
 /-- (O) For every permutation of the declarations that also builds: if no declared pattern follows another
-    declared URL across the host/path boundary (¬F13c among the declarations) and no declared pattern has a
-    `*` before its last part (¬F13f), EVERY request gets the same answer under both orders — same policy or
+    declared URL across the host/path boundary (¬F13c among the declarations), EVERY request gets the same answer under both orders — same policy or
     none, the same remedies and diagnoses (as multisets: duplicated declarations run in the order they are
     written), same normalised URL and parameters.  Overlapping, cross-matching and duplicated declarations
     are all covered. -/
 theorem order_independent_partial (es es' : List Endpoint) (g : Globals) (pt pt' : PTree)
     (m : String) (u : List Part) (hperm : es.Perm es')
     (hbuild : build es = .ok pt) (hbuild' : build es' = .ok pt')
-    (hF13c : cfgBoundaryMix es = false) (hF13f : starQuirk es = false) :
+    (hF13c : cfgBoundaryMix es = false) :
     sameAnswer (observe pt g m u) (observe pt' g m u) = true :=
   sameAnswer_of_select g m u
-    (select_perm (build_inv hbuild) (build_inv hbuild') hperm hF13c hF13f m u)
+    (select_perm (build_inv hbuild) (build_inv hbuild') hperm hF13c m u)
 
 def epX1 : Endpoint := ⟨"GET", "a.com/x", urlX, [⟨"A", 1, true⟩], []⟩
 def epX2 : Endpoint := ⟨"GET", "a.com/x", urlX, [⟨"B", 2, true⟩], []⟩
@@ -330,22 +324,20 @@ theorem regress_F13e :
 
 /-- non-vacuity of (O): cross-matching declarations (the former F13a class) in both orders. -/
 example :
-    cfgBoundaryMix [epUsersId, epUsersMe] = false ∧ starQuirk [epUsersId, epUsersMe] = false ∧
+    cfgBoundaryMix [epUsersId, epUsersMe] = false ∧
     [epUsersId, epUsersMe].Perm [epUsersMe, epUsersId] ∧
     appliedRemedies [epUsersId, epUsersMe] "GET" urlUsers123 = some ["A"] ∧
     appliedRemedies [epUsersMe, epUsersId] "GET" urlUsers123 = some ["A"] :=
-  ⟨by decide, by decide, List.Perm.swap _ _ _, by decide, by decide⟩
+  ⟨by decide, List.Perm.swap _ _ _, by decide, by decide⟩
 
 def epWildWild : Endpoint :=
   ⟨"GET", "a.com/*/*", [⟨true, .lit "a"⟩, ⟨true, .lit "com"⟩, ⟨false, .wild⟩, ⟨false, .wild⟩], [⟨"B", 2, true⟩], []⟩
 
-/-- F13f (open).  `validateURL` accepts `a.com/*/*`; the trie keeps it as a valueless `a.com/*` node that
-    REPLACES the node of a declared `a.com/*` when it is declared later: the `a.com/*` policy is applied in
-    one order and lost in the other. -/
-theorem star_quirk_order_violation_witness :
-    appliedRemedies [epWildWild, epWildAll] "GET" urlXY = some ["C"] ∧
-    appliedRemedies [epWildAll, epWildWild] "GET" urlXY = some [] ∧
-    starQuirk [epWildAll, epWildWild] = true ∧ cfgBoundaryMix [epWildAll, epWildWild] = false := by
+/-- Former F13f witness, now a regression: `a.com/*/*` is rejected by the validation (in every order), so it
+    can no longer knock out the policy of `a.com/*`. -/
+theorem regress_F13f :
+    (match build [epWildAll, epWildWild] with | .error (.insert .wildcardPos) => true | _ => false) = true ∧
+    (match build [epWildWild, epWildAll] with | .error (.insert .wildcardPos) => true | _ => false) = true := by
   decide
 
 /-- F13g (open; acceptance, not selection).  `checkForDuplicates` looks the new URL up as a request: with
